@@ -278,8 +278,8 @@ def main(argv=None):
             evaluations=int(agg.get("paths", 0)),
             distinct_nontrivial=int(agg.get("nontrivial_paths", 0)),
             rule="one evaluation = one explored path class of the real code (a distinct sequence of solver-decided branch outcomes "
-                 "and structural choices); non-trivial = the path has a non-empty path condition or solver-decided branch and at "
-                 "least one solver-decided obligation was stated on it",
+                 "and structural choices); non-trivial = at least one obligation over symbolic inputs was stated on the path and decided by "
+                 "the solver (obligations that simplify to a constant are counted separately as trivially true)",
             samples=samples[:6] or [dict(note="no path sampled")],
             obligations=int(agg.get("obligations", 0)), discharged=int(agg.get("discharged", 0)),
             violated=int(agg.get("violated", 0)), unknown=int(agg.get("unknown", 0)),
